@@ -1150,6 +1150,9 @@ func (sp *ServiceProvider) decryptElement(encryptedEl *etree.Element) (*etree.El
 	if err := doc.ReadFromBytes(plaintextEl); err != nil {
 		return nil, fmt.Errorf("cannot parse plaintext response %v", err)
 	}
+	if doc.Root() == nil {
+		return nil, fmt.Errorf("plaintext response has no root element")
+	}
 	return doc.Root(), nil
 }
 
@@ -1185,8 +1188,17 @@ func (sp *ServiceProvider) validateAssertion(assertion *Assertion, possibleReque
 	if assertion.Issuer.Value != sp.IDPMetadata.EntityID {
 		return fmt.Errorf("issuer is not %q", sp.IDPMetadata.EntityID)
 	}
+	if assertion.Subject == nil {
+		return fmt.Errorf("assertion has no Subject")
+	}
+	if assertion.Conditions == nil {
+		return fmt.Errorf("assertion has no Conditions")
+	}
 	for _, subjectConfirmation := range assertion.Subject.SubjectConfirmations {
 		requestIDvalid := false
+		if subjectConfirmation.SubjectConfirmationData == nil {
+			return fmt.Errorf("assertion SubjectConfirmation has no SubjectConfirmationData")
+		}
 
 		// We *DO NOT* validate InResponseTo when AllowIDPInitiated is set. Here's why:
 		//
